@@ -192,7 +192,7 @@ def set_cache(session_id: str, output: str):
         log.error("cache_set_failed", session_id=session_id)
 
 
-MCP_CACHE_PATH = os.path.join(CACHE_DIR, "mcp.cache")
+MCP_CACHE_PATH = os.path.join(CACHE_DIR, "mcp.servers")  # never a session entry (*.cache)
 MCP_LOCAL_PATH = os.path.expanduser("~/.claude/mcp.local.json")
 
 
